@@ -36,36 +36,91 @@ Definition write_all (h : heap) (ws : list (nat * list A)) : heap :=
 End Heap.
 Arguments Fresh {A}. Arguments Alias {A}. Arguments Mutate {A}.
 
-(* ---- the catalogue: which effects each library call has on its inputs -------------------------------- *)
+(* ---- effects on the inputs ------------------------------------------------------------------------------ *)
 Inductive eff := EAlias (i : nat) | EMutate (i : nat).
 
-Inductive op :=
-  | Clean (code : nat)
-      (* transformations: every variable of the returned file is backed by a buffer allocated by the call
-         (copyVariable / createVariable(...)[...] = values, or an explicit .copy()):
-         copy, subsetVariables, sliceDimensions, applyAlongDimensions, renameVariable, renameDimension, insertDimension,
-         reorderDimensions, removeSingleton, stack, mask (every keyword), f + g (pncbo), eval (computed expression, bare
-         name, view), getvarpnc, slice_dim.
-         Three of them handed out input buffers before their repairs and are watched by the correspondence on exactly
-         those inputs (corpus/C05): eval('B = A') / eval('B = A[...]') stored the evaluated object itself
-         (fix C05-eval-result-copy: a value that may share memory with a variable of the file is copied first);
-         getvarpnc created coordinate variables with values=coordvar[...] even with copy=True
-         (fix C05-getvarpnc-coord-copy); slice_dim stored the swapaxes / slice view (fix C05-slice_dim-copy). *)
-  | Query (code : nat).
-      (* queries: getTimes (time variable, TFLAG, bounds), date2num, time2idx, val2idx (nearest, bounds), repr, dump, save.
-         They return no file and write nothing in place.  Two of them did before their repairs and are watched by the
-         correspondence on exactly those inputs: getTimes on a TFLAG holding -635 wrote 1970001 through a view
-         (fix C05-getTimes-copy: `.copy()`), val2idx / time2idx(method='bounds') on a uniform float coordinate without
-         bounds variable did `start -= dval[0]; end += dval[-1]` on views of the coordinate (fix: `.astype('d')` copies). *)
+(* ---- buffer-level transcription of the library calls ---------------------------------------------------------
+   Array expressions as the code writes them; what matters is whose memory they denote. *)
+Inductive src :=
+  | SVar (i : nat)      (* self.variables[k] of an in-memory file: the variable object itself, buffer i *)
+  | SDisk (i : nat)     (* the same for a disk-backed (netCDF4) variable: every [...] reads into a new array *)
+  | SView (s : src)     (* s[...], s[:], s[a:b:c], s.swapaxes, np.rollaxis(s), np.expand_dims(s), s.view(): s's buffer *)
+  | SCopy (s : src).    (* s.copy(), s.astype(..), np.array(s), arithmetic / take / concatenate / masked_where(copy=True): new buffer *)
 
-(* the catalogue of effects on the inputs: empty for every call since the repairs; the type `eff`, `actions_of` and the
-   Alias / Mutate actions stay so that a call that shares or writes a buffer again can be described (and so that the
-   isolation theorems keep a hypothesis that can fail: see C05_fresh_hypothesis_needed) *)
-Definition impl_effs (o : op) : list eff :=
-  match o with
-  | Clean _ => []
-  | Query _ => []
+Fixpoint base (s : src) : option nat :=
+  match s with SVar i => Some i | SDisk _ => None | SView s' => base s' | SCopy _ => None end.
+
+Inductive stmt :=
+  | CopyVariable (s : src)  (* outf.copyVariable(var): createVariable -> np.zeros(shape), then myvar[:] = vals[:] *)
+  | CreateAssign (s : src)  (* v = outf.createVariable(...) / copyVariable(withdata=False); v[...] = s *)
+  | CreateValues (s : src)  (* outf.createVariable(..., values=s): `result = values[...].view(subtype)`, no allocation *)
+  | StoreObject (s : src)   (* outf.variables[k] = s *)
+  | Inplace (s : src)       (* s -= x ; s += x ; s[cond] = x *)
+  | ReadOnly (s : src).     (* s is only read (np.interp, np.diff, repr, write to disk) *)
+
+Definition stmt_effs (st : stmt) : list eff :=
+  match st with
+  | CopyVariable _ | CreateAssign _ | ReadOnly _ => []
+  | CreateValues s | StoreObject s => match base s with Some i => [EAlias i] | None => [] end
+  | Inplace s => match base s with Some i => [EMutate i] | None => [] end
   end.
+Definition exec (p : list stmt) : list eff := flat_map stmt_effs p.
+
+(* eval's guard (fix C05-eval-result-copy): `if may_share_memory(val, some variable of self): val = val.copy()` *)
+Definition guard_copy (s : src) : src := match base s with Some _ => SCopy s | None => s end.
+
+Inductive call :=
+  | Copy | Subset | SliceDims | ApplyAlong | RenameVar (i : nat) | RenameDim | InsertDim | Reorder | RemoveSingleton
+  | Stack | Mask | Binop
+  | EvalExpr (i : nat)      (* eval('C = A * 2') *)
+  | EvalName (i : nat)      (* eval('C = A'), eval('C = M') *)
+  | EvalView (i : nat)      (* eval('C = A[:]'), eval('C = A[::-1]'), eval('C = np.asarray(A)') *)
+  | Getvarpnc (coords : list nat)
+  | SliceDim (sliced : list nat)
+  | GetTimesTflag (t : nat)
+  | Val2idxBounds (c : nat)
+  | OtherQuery (code : nat). (* getTimes(time variable), date2num, time2idx, val2idx(nearest), repr, dump, save *)
+
+Definition is_query (c : call) : bool :=
+  match c with GetTimesTflag _ | Val2idxBounds _ | OtherQuery _ => true | _ => false end.
+
+(* the program each call runs on input variables `vs` (as sources: SVar i in memory, SDisk i on disk) *)
+Definition prog_of (c : call) (v : nat -> src) (vars : list nat) : list stmt :=
+  let each (f : src -> stmt) := map (fun i => f (v i)) vars in
+  match c with
+  | Copy | RenameDim | Subset => each CopyVariable                   (* _copywith(variables=True, data=True) / copyVariable per kept key *)
+  | SliceDims => each (fun s => CreateAssign (SView s))              (* newvals = varo[sliceo]; newvaro[...] = newvals *)
+  | ApplyAlong => each (fun s => CreateAssign (SView s))             (* newvals = varo[...] -> reductions; newvaro[...] = newvals *)
+  | RenameVar i => each CopyVariable ++ [CopyVariable (v i)]
+  | InsertDim => each (fun s => CreateAssign (SView (SView s)))      (* var[...] = np.expand_dims(vv[...], axis) *)
+  | Reorder => each CopyVariable                                     (* outf = self.copy(variables=True) *)
+               ++ each (fun s => StoreObject (SView (SCopy (SView s))))  (* newvals = vv[:].copy(); rollaxis...; outf.variables[vk] = newvals *)
+  | RemoveSingleton => each (fun s => CreateAssign (SView (SView s)))   (* outvals = v[...]; take; ov[...] = outvals[...] *)
+  | Stack => each (fun s => CreateAssign (SView s))                  (* outvals = var[...] | np.ma.concatenate(..); outvar[...] = outvals *)
+  | Mask => each (fun s => CreateAssign (SView (SCopy (SView s))))   (* vals = np.ma.masked_where(where, vv[...]); newvar[...] = vals[...] *)
+  | Binop => each (fun s => CreateValues (SView (SCopy (SView s))))  (* values=masked_invalid(eval('in1var[...] op in2var[...]').view(ndarray)) *)
+  | EvalExpr i => each CopyVariable ++ [StoreObject (guard_copy (SCopy (v i)))]
+  | EvalName i => each CopyVariable ++ [StoreObject (guard_copy (v i))]
+  | EvalView i => each CopyVariable ++ [StoreObject (guard_copy (SView (v i)))]
+  | Getvarpnc coords => each (fun s => CreateValues (SCopy (SView s)))             (* vals = var[...]; vals = vals.copy() *)
+                        ++ map (fun i => CreateValues (SCopy (SView (v i)))) coords (* values=coordvar[...].copy() *)
+  | SliceDim sliced => each (fun s => CreateAssign (SView s))                      (* p2p.addVariable *)
+                       ++ map (fun i => StoreObject (SCopy (SView (SView (SView (SView (v i))))))) sliced
+                                                                                   (* vout = var[...].swapaxes[..].swapaxes; .copy() *)
+  | GetTimesTflag t => [Inplace (SCopy (SView (SView (v t))))]       (* dates = TFLAG[:][:, 0, 0].copy(); dates[dates == -635] = 1970001 *)
+                       ++ each ReadOnly
+  | Val2idxBounds c => [Inplace (SCopy (SView (SView (v c)))); Inplace (SCopy (SView (SView (v c))))]
+                       ++ each ReadOnly                              (* start = dimvals[:1].astype('d'); start -= ..; end likewise *)
+  | OtherQuery _ => each ReadOnly
+  end.
+
+Inductive op := Call (c : call) (mem : bool) (vars : list nat).
+
+Definition var_src (mem : bool) (i : nat) : src := if mem then SVar i else SDisk i.
+
+(* what the code does to its inputs = the effects of running the call's program *)
+Definition impl_effs (o : op) : list eff :=
+  match o with Call c mem vars => exec (prog_of c (var_src mem) vars) end.
 
 Definition spec_effs (o : op) : list eff := [].
 
